@@ -728,6 +728,11 @@ Definition C06_holds (c : case) : Prop :=
                       (cf_hdr np nc > max_header_size -> fin = FErr)) /\
       (over = false -> fin = FOk /\ listed = stop /\ stop = np + nc /\ hs = cf_hdr np nc /\
                        hs <= max_header_size /\ stop = max_header_entries)
+  | CW seq sc items fin file t obs =>
+      fin <> FPanic /\ obs <> Panic /\
+      (seq = true -> ok_after_fail false (map it_ok items) = false /\
+                     (fin = FOk -> forallb (fun b => b) (map it_ok items) = true)) /\
+      (fin = FOk -> exists es hs, obs = Ok (es, hs) /\ listing_ok seq items file es hs = true)
   end.
 
 Lemma fres_eqb_true a b : fres_eqb a b = true -> a = b.
@@ -735,8 +740,8 @@ Proof. destruct a, b; cbn; congruence. Qed.
 
 Theorem check_C06_sound c : check_C06 c = true -> C06_holds c.
 Proof.
-  unfold check_C06. destruct c as [written has_data f size t obs | bs fin | over np nc stop fin listed hs];
-    cbn [oracle_code C06_holds].
+  unfold check_C06. destruct c as [written has_data f size t obs | bs fin | over np nc stop fin listed hs | seq sc items fin file t obs];
+    cbn [oracle_code_all oracle_code C06_holds].
   - destruct (is_panic obs) eqn:Ep; [discriminate|].
     destruct written as [bs|].
     + destruct (wf_blobs (with_offsets bs 0)) eqn:Ew.
@@ -776,12 +781,87 @@ Proof.
       * destruct (cf_hdr np nc <=? max_header_size) eqn:Eh; cbn [fres_eqb andb]; [discriminate|]. intros _.
         split; [discriminate|]. split; [|discriminate]. intros _. split; [lia|reflexivity].
       * cbn [fres_eqb andb]. discriminate.
+  - unfold cw_code. intros H. apply Nat.eqb_eq in H.
+    destruct (is_panic obs || fres_eqb fin FPanic) eqn:E0; [discriminate|]. apply orb_false_iff in E0 as [E0 E0'].
+    destruct (seq && (ok_after_fail false (map it_ok items) || negb (forallb (fun b => b) (map it_ok items)) && fres_eqb fin FOk)) eqn:E1; [discriminate|].
+    destruct (faultless sc && negb (forallb (fun b => b) (map it_ok items) && fres_eqb fin FOk)) eqn:E2; [discriminate|].
+    split; [destruct fin; try discriminate; congruence|]. split; [destruct obs; try discriminate; congruence|]. split.
+    + intros ->. cbn [andb] in E1. apply orb_false_iff in E1 as [A B]. split; [exact A|].
+      intros ->. cbn [fres_eqb] in B. rewrite andb_true_r in B. apply negb_false_iff in B. exact B.
+    + intros ->. cbn [fres_eqb] in H. destruct obs as [[es hs]| |]; try discriminate.
+      destruct (listing_ok seq items file es hs) eqn:EL; [|discriminate]. exists es, hs. split; [reflexivity|exact EL].
+Qed.
+
+(* what listing_ok says, as propositions *)
+Lemma listing_ok_sound seq items file es hs : listing_ok seq items file es hs = true ->
+  hs + sum_len es = len file /\ with_offsets es 0 = es /\ length es = length (filter it_ok items) /\
+  (forall e, In e es -> exists it, find_item (b_id e) items = Some it /\ it_ok it = true /\
+     b_len e = len (it_data it) /\ sub file (b_off e) (b_off e + b_len e) = Some (it_data it)) /\
+  (seq = true -> map b_id es = map (fun x => b_id (it_blob x)) (filter it_ok items)).
+Proof.
+  unfold listing_ok. rewrite !andb_true_iff. intros ((((A & B) & C) & D) & E).
+  split; [lia|]. split; [apply blobs_eqb_spec, B|]. split; [apply Nat.eqb_eq, C|]. split.
+  - intros e He. rewrite forallb_forall in D. specialize (D e He). apply andb_true_iff in D as [_ D].
+    destruct (find_item (b_id e) items) as [it|]; [|discriminate]. exists it. split; [reflexivity|].
+    rewrite !andb_true_iff in D. destruct D as ((((D1 & D2) & D3) & D4) & D5).
+    split; [exact D1|]. split; [lia|].
+    destruct (sub file (b_off e) (b_off e + b_len e)) as [d|]; [|discriminate]. apply bytes_eqb_spec in D5. subst d. reflexivity.
+  - intros ->. cbn [negb orb] in E. apply (list_eqb_spec bytes_eqb bytes_eqb_spec), E.
+Qed.
+
+(* ---------- a broken packer stays broken ---------- *)
+Lemma addF_broken sc pf a : pf_err pf = true -> addF sc pf a = (pf, false).
+Proof. intros H. unfold addF. rewrite H. reflexivity. Qed.
+
+Theorem broken_packer_stays_broken seal open nonce sc pf adds : pf_err pf = true ->
+  fst (runF sc pf adds) = pf /\ Forall (fun ok => ok = false) (snd (runF sc pf adds)) /\
+  finalizeF seal open nonce sc (fst (runF sc pf adds)) = Err EOther.
+Proof.
+  intros Hb. assert (H : fst (runF sc pf adds) = pf /\ Forall (fun ok => ok = false) (snd (runF sc pf adds))).
+  { induction adds as [|a r IH]; cbn [runF fst snd]; [split; [reflexivity|constructor]|].
+    rewrite (addF_broken sc pf a Hb). destruct (runF sc pf r) as [pf2 oks]. cbn [fst snd] in *. destruct IH as [I1 I2].
+    split; [exact I1|constructor; [reflexivity|exact I2]]. }
+  destruct H as [H1 H2]. split; [exact H1|]. split; [exact H2|]. rewrite H1. unfold finalizeF. rewrite Hb. reflexivity.
+Qed.
+
+(* a failing Write (error or short write) breaks the packer *)
+Lemma addF_fail_breaks sc pf a : snd (addF sc pf a) = false -> pf_err (fst (addF sc pf a)) = true.
+Proof.
+  unfold addF. destruct (pf_err pf) eqn:E; [intros _; exact E|].
+  destruct (write_out (nth (pf_nw pf) sc WFull) (a_data a)) as [w full]. destruct full; [discriminate|reflexivity].
+Qed.
+
+Lemma runF_not_broken sc adds : forall pf, pf_err (fst (runF sc pf adds)) = false ->
+  pf_err pf = false /\ pf_p (fst (runF sc pf adds)) = padds (pf_p pf) adds /\ Forall (fun ok => ok = true) (snd (runF sc pf adds)).
+Proof.
+  induction adds as [|a r IH]; intros pf H; cbn [runF fst snd padds fold_left] in *; [repeat split; [exact H|constructor]|].
+  destruct (addF sc pf a) as [pf1 ok] eqn:Ea. destruct (runF sc pf1 r) as [pf2 oks] eqn:Er. cbn [fst snd] in *.
+  assert (H2 : pf_err (fst (runF sc pf1 r)) = false) by (rewrite Er; exact H).
+  destruct (IH pf1 H2) as (I1 & I2 & I3). rewrite Er in I2, I3. cbn [fst snd] in I2, I3.
+  unfold addF in Ea. destruct (pf_err pf) eqn:Ee.
+  - inversion Ea; subst. congruence.
+  - destruct (write_out (nth (pf_nw pf) sc WFull) (a_data a)) as [w full]. destruct full; inversion Ea; subst; cbn [pf_err pf_p] in *; [|discriminate].
+    split; [reflexivity|]. split; [exact I2|constructor; [reflexivity|exact I3]].
+Qed.
+
+(* if Finalize succeeds on a writer with faults, no Add failed, and the file is exactly the fault-free one: the
+   listing-back theorem C06_list_finalize applies to it *)
+Theorem finalizeF_ok seal open nonce sc adds f :
+  finalizeF seal open nonce sc (fst (runF sc (mkPF new_packer false 0) adds)) = Ok f ->
+  Forall (fun ok => ok = true) (snd (runF sc (mkPF new_packer false 0) adds)) /\
+  finalize seal open nonce (padds new_packer adds) = Ok f.
+Proof.
+  intros H. unfold finalizeF in H.
+  destruct (pf_err (fst (runF sc (mkPF new_packer false 0) adds))) eqn:E; [discriminate|].
+  destruct (runF_not_broken sc adds _ E) as (_ & I2 & I3). cbn [pf_p] in I2. rewrite I2 in H.
+  split; [exact I3|]. destruct (finalize seal open nonce (padds new_packer adds)) as [f'| |]; try discriminate.
+  destruct (snd (write_out _ _)); [exact H|discriminate].
 Qed.
 
 (* whatever the model of List returns satisfies the oracle (for files of unknown provenance) *)
 Theorem model_meets_oracle t f size : check_C06 (CL None false f size t (list_pack (tab_open t) f size)) = true.
 Proof.
-  unfold check_C06. cbn [oracle_code].
+  unfold check_C06. cbn [oracle_code_all oracle_code].
   pose proof (list_total (tab_open t) f size) as Ht.
   destruct (list_pack (tab_open t) f size) as [[es hs]| |] eqn:E; cbn [is_panic]; try reflexivity; [|congruence].
   rewrite (list_ok_authentic _ _ _ _ _ E). reflexivity.
